@@ -1,0 +1,12 @@
+//go:build verif
+
+package upstream
+
+// Thin exported wrappers for the verification harness in /verif.
+
+func VerifGetDialAddr(urlAddr, dialAddr, defaultPort string) string {
+	return getDialAddr(urlAddr, dialAddr, defaultPort)
+}
+func VerifTryTrimIpv6Brackets(s string) string     { return tryTrimIpv6Brackets(s) }
+func VerifTryRemovePort(s string) string           { return tryRemovePort(s) }
+func VerifDialNetworkTcpOrUnix(addr string) string { return dialNetworkTcpOrUnix(addr) }
